@@ -552,7 +552,14 @@ func buildSetEvents(id string, task *Task, updates map[string]string, agentID st
 	if cv, ok := remainingUpdates["claim"]; ok {
 		claimValue = cv
 		if !isEpic(task) {
+			_, stateAlsoSet := remainingUpdates["state"]
 			if claimValue == "" {
+				// Clearing the claim without changing state must leave a valid (state, claim) pair.
+				if !stateAlsoSet {
+					if err := validateClaimInvariant(task.State, ""); err != nil {
+						return nil, nil, err
+					}
+				}
 				// Clear claim
 				event, err := newEvent("unclaim", now, UnclaimEvent{
 					ID: id,
@@ -563,6 +570,12 @@ func buildSetEvents(id string, task *Task, updates map[string]string, agentID st
 				}
 				events = append(events, event)
 			} else {
+				// A claim without an explicit state implies doing: that transition must be legal.
+				if !stateAlsoSet {
+					if err := validateTransition(task.State, stateDoing); err != nil {
+						return nil, nil, err
+					}
+				}
 				event, err := newEvent("claim", now, ClaimEvent{
 					ID:      id,
 					AgentID: claimValue,
